@@ -420,7 +420,7 @@ func TestC14SendFail(t *testing.T) {
 	idx := 0
 	for _, kind := range []string{"Bidi", "CStream", "SStream"} {
 		for _, park := range []bool{false, true} {
-			for ev := 0; ev < len(bodyFaultErrs); ev++ {
+			for ev := 0; ev <= len(bodyFaultErrs); ev++ { // ev == len(bodyFaultErrs): the CODEC fails to marshal the message (nothing reaches the transport)
 				for _, after := range []string{"drop", "recv"} {
 					if !want(idx) {
 						idx++
@@ -444,7 +444,7 @@ func TestC14SendFail(t *testing.T) {
 						defer scancel()
 						go srv.Serve(sctx, l.S)
 						fault := &bodyFaultRW{Endpoint: l.C}
-						fault.nfault.Store(int64(ev))
+						fault.nfault.Store(int64(ev % len(bodyFaultErrs)))
 						goat.VerifResetTracking()
 						cc := goat.NewClientConn(fault, "c1", "srv")
 						var armed atomic.Bool
@@ -471,10 +471,20 @@ func TestC14SendFail(t *testing.T) {
 							return
 						}
 						sample(1)
-						fault.failNextBody.Store(true)
+						marshalFails := ev == len(bodyFaultErrs)
+						if !marshalFails {
+							fault.failNextBody.Store(true)
+						}
 						armed.Store(park)
 						sent := make(chan error, 1)
-						go func() { sent <- cs.SendMsg(&wrapperspb.BytesValue{Value: payloadOf(7)}) }()
+						go func() {
+							if marshalFails {
+								// a string field that is not valid UTF-8: proto.Marshal refuses it
+								sent <- cs.SendMsg(&wrapperspb.StringValue{Value: "\xff\xfe not utf-8"})
+								return
+							}
+							sent <- cs.SendMsg(&wrapperspb.BytesValue{Value: payloadOf(7)})
+						}()
 						synctest.Wait() // parked between the two steps of the teardown: the loop goroutine runs to its end first
 						close(gate)
 						synctest.Wait()
@@ -927,6 +937,153 @@ func TestC09MuxClose(t *testing.T) {
 			}
 			em.Emit(Rec{Idx: idx, Kind: "c09-mux-close", Desc: map[string]any{"order": order, "inflight": inflight, "calls": n, "pending": pending, "succeeded": succ},
 				Tags: tags, Coq: fmt.Sprintf("C09Storm %d %d %d", n, pending, succ)})
+			em.Marker("end", idx)
+			idx++
+		}
+	}
+}
+
+// ---------------------------------------------------------------- C09: a stalled transport Write and the other writers
+
+// TestC09WriteStall: free-running, real time (a goroutine waiting for a mutex never lets a bubble settle): the transport
+// stalls (Write blocks, honouring its context); call A's Write is parked in it; calls B (unary / stream open, each with
+// its OWN 300 ms deadline) are started - their Writes wait behind the stall, each under its own context -; the read
+// fails. Every B must return by its deadline (within 5 s), whatever holds A (C09Storm: reason 6 for a B still pending).
+func TestC09WriteStall(t *testing.T) {
+	em := NewEmitter()
+	defer em.Close()
+	idx := 0
+	for _, nb := range []int{1, 3} {
+		for _, kind := range []string{"unary", "stream", "mixed"} {
+			for _, failFirst := range []bool{false, true} {
+				if !want(idx) {
+					idx++
+					continue
+				}
+				em.Marker("begin", idx)
+				ep := NewEndpoint("client")
+				cc := goat.NewClientConn(ep, "src", "dst")
+				ep.BlockWrites()
+				actx, acancel := context.WithCancel(context.Background())
+				go func() {
+					var out wrapperspb.BytesValue
+					cc.Invoke(actx, "/verif.Echo/Unary", &wrapperspb.BytesValue{Value: payloadOf(1)}, &out)
+				}()
+				for dl := time.Now().Add(5 * time.Second); ep.NumBlockedWrites() < 1 && time.Now().Before(dl); {
+					time.Sleep(time.Millisecond)
+				}
+				if failFirst {
+					ep.FailRead(errInjected)
+					time.Sleep(20 * time.Millisecond)
+				}
+				var wg sync.WaitGroup
+				var succ atomic.Int64
+				for i := 0; i < nb; i++ {
+					wg.Add(1)
+					go func(i int) {
+						defer wg.Done()
+						ctx, cancel := context.WithTimeout(context.Background(), 300*time.Millisecond)
+						defer cancel()
+						var err error
+						if kind == "unary" || (kind == "mixed" && i%2 == 0) {
+							var out wrapperspb.BytesValue
+							err = cc.Invoke(ctx, "/verif.Echo/Unary", &wrapperspb.BytesValue{Value: payloadOf(int64(2 + i))}, &out)
+						} else {
+							_, err = cc.NewStream(ctx, descBidi, "/verif.Echo/Bidi")
+						}
+						if err == nil {
+							succ.Add(1)
+						}
+					}(i)
+				}
+				time.Sleep(50 * time.Millisecond)
+				if !failFirst {
+					ep.FailRead(errInjected)
+				}
+				done := make(chan struct{})
+				go func() { wg.Wait(); close(done) }()
+				pending := 0
+				select {
+				case <-done:
+				case <-time.After(5 * time.Second):
+					pending = nb // at least one; the record says "some B is still pending 5 s after its 300 ms deadline"
+				}
+				acancel()
+				ep.UnblockWrites()
+				em.Emit(Rec{Idx: idx, Kind: "c09-write-stall", Desc: map[string]any{"b_calls": nb, "kind": kind, "fail_first": failFirst, "pending": pending, "succeeded": succ.Load()},
+					Tags: []string{fmt.Sprintf("writers-behind-the-stall=%d", nb), "kind:" + kind, fmt.Sprintf("read-failed-first=%v", failFirst), "free-running"},
+					Coq:  fmt.Sprintf("C09Storm %d %d %d", nb, pending, succ.Load())})
+				em.Marker("end", idx)
+				idx++
+			}
+		}
+	}
+}
+
+// ---------------------------------------------------------------- C13: RecvMsg into ONE reused message object
+
+// TestC13Reuse: a stream whose caller receives every message into the SAME message object (the usual `var m T; for {
+// stream.RecvMsg(&m) }`), the peer mixing zero-byte payloads (the empty message) with ordinary ones: after every
+// RecvMsg the object must hold exactly the message just received - an empty payload is the empty message, not the
+// previous one. Judged as C13Surplus: (token sent, token the object holds after the RecvMsg, 1).
+func TestC13Reuse(t *testing.T) {
+	em := NewEmitter()
+	defer em.Close()
+	idx := 0
+	for _, pattern := range [][]int64{{5, 0}, {5, 0, 6}, {0, 5, 0, 0, 7}, {5, 6, 0}, {0}, {5, 0, 0}} {
+		for _, nilBody := range []bool{false, true} {
+			if !want(idx) {
+				idx++
+				continue
+			}
+			em.Marker("begin", idx)
+			var res []string
+			leaked := bubble(t, func(t *testing.T) {
+				ep := NewEndpoint("client")
+				cc := goat.NewClientConn(ep, "src", "dst")
+				cs, err := cc.NewStream(context.Background(), descBidi, "/verif.Echo/Bidi")
+				if err != nil {
+					t.Errorf("open: %v", err)
+					return
+				}
+				synctest.Wait()
+				id := ep.WrittenCopy()[0].Id
+				var m wrapperspb.BytesValue // ONE object for all messages
+				for _, tok := range pattern {
+					var data []byte
+					if tok != 0 {
+						data, _ = proto.Marshal(&wrapperspb.BytesValue{Value: payloadOf(tok)})
+					} else if !nilBody {
+						data = []byte{}
+					}
+					ep.Deliver(&Rpc{Id: id, Header: hdr("/verif.Echo/Bidi", "dst", "src"), Body: &goatorepo.Body{Data: data}})
+					synctest.Wait()
+					got := int64(-2)
+					var done atomic.Bool
+					go func() {
+						if err := cs.RecvMsg(&m); err != nil {
+							got = -3
+						} else {
+							got = tokenOf(m.Value)
+						}
+						done.Store(true)
+					}()
+					synctest.Wait()
+					if !done.Load() {
+						got = -2
+					}
+					// the expected token: an empty payload is the empty message (token 0); own = got is required, so own is
+					// encoded as the token itself and an empty message as 0
+					res = append(res, fmt.Sprintf("(%d, %s, 1)", tok, coqZ(got)))
+				}
+				ep.FailRead(errInjected)
+				synctest.Wait()
+			})
+			tags := []string{fmt.Sprintf("pattern=%v", pattern), fmt.Sprintf("empty-as-nil-data=%v", nilBody), "one-reused-message-object"}
+			if leaked {
+				tags = append(tags, "leaked-at-end")
+			}
+			em.Emit(Rec{Idx: idx, Kind: "c13-reuse", Desc: map[string]any{"pattern": pattern, "results": res}, Tags: tags, Coq: "C13Surplus " + coqList(res)})
 			em.Marker("end", idx)
 			idx++
 		}
